@@ -6,7 +6,7 @@
 //!
 //! Handles h0, h1 start on two maps X and Y of clearly different file length
 //! (values increase with the keys, so
-//! that get_key is defined). Alphabet (38 operations):
+//! that get_key is defined). Alphabet (46 operations):
 //!   Get(h, p)      get + contains_key of probe p in {"", a, ab, ba}
 //!   Open(h, b)     open the stream slot of h (replacing an open one) with
 //!                  bounds b in {none, ge(a).le(b), gt(a), lt(b)} or as
@@ -39,6 +39,8 @@ use crate::model::*;
 #[derive(Clone, Copy, Debug, PartialEq, Eq)]
 pub enum Op {
     Get(u8, u8),
+    /// contains_key alone (Get asks get alone): which of the two comes first on an object matters to a lazily filled table
+    Contains(u8, u8),
     Open(u8, u8),
     Next(u8),
     Drop(u8),
@@ -73,6 +75,7 @@ pub fn alphabet() -> Vec<Op> {
     for h in 0..2u8 {
         for p in 0..4u8 {
             a.push(Op::Get(h, p));
+            a.push(Op::Contains(h, p));
         }
     }
     for h in 0..2u8 {
@@ -172,9 +175,16 @@ pub fn run_seq(seq: &[Op]) -> Result<u64, (Class, String)> {
                         let hh = hh as usize;
                         let want = cs[content[hh]].0.iter().find(|kv| kv.0 == PROBES[p as usize]).map(|kv| kv.1);
                         let got = h[hh].get(PROBES[p as usize]).map(|o| o.value());
+                        if got != want {
+                            return Err((Class::Lookup, format!("{}: get = {:?}, the map is {}", at(), got, kvs_str(&cs[content[hh]].0))));
+                        }
+                    }
+                    Op::Contains(hh, p) => {
+                        let hh = hh as usize;
+                        let want = cs[content[hh]].0.iter().any(|kv| kv.0 == PROBES[p as usize]);
                         let c = h[hh].contains_key(PROBES[p as usize]);
-                        if got != want || c != want.is_some() {
-                            return Err((Class::Lookup, format!("{}: get = {:?}, contains_key = {}, the map is {}", at(), got, c, kvs_str(&cs[content[hh]].0))));
+                        if c != want {
+                            return Err((Class::Lookup, format!("{}: contains_key = {}, the map is {}", at(), c, kvs_str(&cs[content[hh]].0))));
                         }
                     }
                     Op::Open(hh, b) => {
@@ -284,7 +294,7 @@ thread_local! {
 
 fn class_of(op: &Op) -> Class {
     match op {
-        Op::Get(..) => Class::Lookup,
+        Op::Get(..) | Op::Contains(..) => Class::Lookup,
         Op::Open(..) | Op::Next(_) | Op::Drop(_) | Op::Collect(..) => Class::Stream,
         Op::Verify(_) => Class::Verify,
         Op::GetKey(..) => Class::GetKey,
@@ -342,6 +352,7 @@ pub fn ops_json(seq: &[Op]) -> Value {
         seq.iter()
             .map(|o| match *o {
                 Op::Get(h, p) => json!(["get", h, p]),
+                Op::Contains(h, p) => json!(["contains", h, p]),
                 Op::Open(h, b) => json!(["open", h, b]),
                 Op::Next(h) => json!(["next", h, 0]),
                 Op::Drop(h) => json!(["drop", h, 0]),
@@ -364,6 +375,7 @@ pub fn ops_from(v: &Value) -> Vec<Op> {
             let (h, x) = (e[1].as_u64().unwrap() as u8, e[2].as_u64().unwrap() as u8);
             match e[0].as_str().unwrap() {
                 "get" => Op::Get(h, x),
+                "contains" => Op::Contains(h, x),
                 "open" => Op::Open(h, x),
                 "next" => Op::Next(h),
                 "drop" => Op::Drop(h),
@@ -389,7 +401,7 @@ pub fn replay(case: &Value) -> Option<Result<String, String>> {
     Some(guarded(&seq).map(|n| format!("{} reader operations agree with the model", n)).map_err(|e| e.1))
 }
 
-pub const RULE: &str = " reader operation sequences: every sequence of at most D calls (quick D=4, thorough D=5) over a 38-operation alphabet on two reader handles (get/contains_key of 4 probes, open one of 4 bounded streams or a bounded Subsequence search, next, drop, collect the rest through into_byte_vec / into_byte_keys / into_values, map_data to the other map's bytes, clone_from the other handle, verify, get_key of 2 values, the harmless questions len/is_empty/size/fst_type/as_bytes/root and a clone that is dropped), every answer compared with a reference model; a wrong answer is reported by the check of the operation's own property.";
+pub const RULE: &str = " reader operation sequences: every sequence of at most D calls (quick D=4, thorough D=5) over a 46-operation alphabet on two reader handles (get and contains_key, separately, of 4 probes, open one of 4 bounded streams or a bounded Subsequence search, next, drop, collect the rest through into_byte_vec / into_byte_keys / into_values, map_data to the other map's bytes, clone_from the other handle, verify, get_key of 2 values, the harmless questions len/is_empty/size/fst_type/as_bytes/root and a clone that is dropped), every answer compared with a reference model; a wrong answer is reported by the check of the operation's own property.";
 
 /// Adds the exploration to a plan; only failures of class `mine` are reported.
 pub fn add_units(p: &mut Plan, mine: Class, depth: usize) {
